@@ -91,7 +91,7 @@ def poly(prog: Optional[Program], module: Optional[Module], e: ast.AST, sym: Sym
         return p_const(Fraction(e.value).limit_denominator(10**9))
     if isinstance(e, ast.Name) and e.id in env:
         return env[e.id]
-    if prog is not None and module is not None and isinstance(e, (ast.Name, ast.Attribute)):
+    if prog is not None and module is not None and isinstance(e, (ast.Name, ast.Attribute, ast.Subscript)) and not (isinstance(e, ast.Name) and e.id in env):
         try:
             v = prog.fold(module, e)
             if isinstance(v, (int, float)) and not isinstance(v, bool):
